@@ -45,6 +45,12 @@ CHECKS = {
     'C11': ('M+W', "For all 65536 start values (symbolic): the two values write() stores into the generation obey the protocol (odd in flight, even non-zero different final, wrap to 2, "
                    "continue from an odd value), inductively; and under RC11 a conforming third-party reader (acquire fence / acquire load) never sees data of an update under the previous "
                    "even generation, nor the final generation before the data (N <= 2/3 updates).", NOTE_W, TECH_W),
+    'C12': ('M', "All paths of one iteration of the poller loop: the monotonic (COARSE) clock is read before chronyd is queried, exactly once, and the as-of instant attached to a report is that reading; "
+                 "all return paths of ClockErrorBound::now(): REALTIME is read first, the monotonic clock second, and the interval is centred on the first reading. The order is structural, so it holds "
+                 "for every delay between the steps.", NOTE_D, TECH_M),
+    'C13': ('M', "All combinations of environment answers in one iteration of the real poller loop (clock read, chronyd answer, PHC configured, reference ids, PHC read, grace period): exactly one message to "
+                 "the ShmWriter mailbox, of the documented kind, with the PHC bound added iff the ids match; and the grace-period arithmetic of ClockErrorBoundPoller for all instants of a symbolic "
+                 "monotone clock (outside right after start; inside iff less than 5 s since the last tracking reply; only a tracking reply records the instant). Socket I/O is environment.", NOTE_D, TECH_M),
     'C14': ('M', "All inputs of the stated domain: every panic/overflow site reachable from now() (asserts of the overflow-checked MIR, nix's range panics) is proved unreachable, and the error "
                  "kinds are proved to be returned exactly under their documented conditions.", NOTE_NOW, TECH_M),
     'C18': ('M+W', "Termination by induction, no unrolling bound: a loop-carried counter of snapshot()'s retry loop is proved to decrease on every retry path and to force an exit at 0; the "
